@@ -4,7 +4,7 @@ CONSTRAINT TraceConstraint
 POSTCONDITION Post
 CHECK_DEADLOCK FALSE
 CONSTANTS
-  Deviations <- DevKwRebind
+  Deviations <- DevViewSelf
   KindSet <- EmptySet
   InputKinds <- EmptySet
   MaxP = 0
